@@ -504,6 +504,16 @@ def build_models():
     reg(np.isnan, m_isnan)
     reg(np.abs, m_np_abs)
     reg(np.absolute, m_np_abs)
+    # elementwise maximum / minimum of two scalars
+    def _pair(is_min):
+        inner = _minmax(is_min)
+        def m(interp, args, kw):
+            if len(args) != 2 or kw or any(isinstance(a, (list, tuple)) or hasattr(a, "sym_max") for a in args):
+                raise Unsupported("np.maximum / np.minimum on arrays")
+            return inner(interp, [list(args)], {})
+        return m
+    reg(np.maximum, _pair(False))
+    reg(np.minimum, _pair(True))
     reg(np.min, m_np_minmax(True))
     reg(np.max, m_np_minmax(False))
     reg(np.sign, m_np_sign)
